@@ -397,12 +397,18 @@ def evaluate_arithmetic(op, lval, rval):
         return error.DIV_ZERO
 
 
+def to_text(value):
+    if value is None:
+        return ''
+    return str(value)
+
+
 def evaluate_concatenation(lval, rval):
     if isinstance(lval, error.XLError):
         return lval
     if isinstance(rval, error.XLError):
         return rval
-    return str(lval) + str(rval)
+    return to_text(lval) + to_text(rval)
 
 
 def evaluate_logic(op, lval, rval):
